@@ -1,5 +1,7 @@
 //! C20 harness: 2-4 resource threads share the configuration globals x and y; a controller pauses, resumes and stops them.
 //!   c20 <n> <out>            generate n cases from VERIF_SEED;    c20 --replay <in> <out>  re-run the cases (ids c<k>_<seed>)
+//!   a third of the cases give all resources ONE shared ManualClock and a 10 ms cycle interval (threads park in sleep_until between
+//!   cycles, the controller advances the clock) and stop the resources one at a time
 //! Line:  <id> : nres ncmds : x y x_end limit nw (a b)* nres (state joined saves mine(-1 = none) bad)*
 //!   every resource runs:  IF x <> y THEN bad := bad + 1; x := x + 1; mine := mine + 1; y := y + 1; and the faulting one divides by zero
 //!   in its limit-th cycle.  Values are scaled down by nothing: counters are exact.
@@ -48,6 +50,7 @@ fn run_case(seed: u64) -> Result<String, String> {
     let faulty = if rng.chance(1, 2) { Some(rng.below(nres as u64) as usize) } else { None };
     let limit = if faulty.is_some() { rng.range(1, 400) } else { 0 };
     let mut handles: Vec<ResourceHandle<ManualClock>> = Vec::new();
+    let shared_clock: Option<ManualClock> = if rng.chance(1, 3) { Some(ManualClock::new()) } else { None };
     let mut saves = Vec::new();
     let mut shared: Option<SharedGlobals> = None;
     for i in 0..nres {
@@ -57,7 +60,7 @@ fn run_case(seed: u64) -> Result<String, String> {
         rt.set_retain_store(Some(Box::new(CountingStore(cnt.clone()))), None);
         saves.push(cnt);
         if shared.is_none() { shared = Some(SharedGlobals::from_runtime(vec!["x".into(), "y".into()], &rt).map_err(|e| format!("{e:?}"))?); }
-        let runner = ResourceRunner::new(rt, ManualClock::new(), Duration::from_millis(0));
+        let runner = if let Some(clock) = &shared_clock { ResourceRunner::new(rt, clock.clone(), Duration::from_millis(10)) } else { ResourceRunner::new(rt, ManualClock::new(), Duration::from_millis(0)) };
         handles.push(runner.spawn_with_shared(format!("res-{i}"), shared.clone().unwrap()).map_err(|e| format!("{e:?}"))?);
     }
     let shared = shared.unwrap();
@@ -77,7 +80,7 @@ fn run_case(seed: u64) -> Result<String, String> {
                 }
             }
             2 | 3 => { let _ = ctl[i].resume(); }
-            4 => { std::thread::sleep(StdDuration::from_micros(rng.below(2000))); }
+            4 => { if let Some(clock) = &shared_clock { clock.advance(Duration::from_millis(*rng.pick(&[1i64, 10, 10, 25]))); } std::thread::sleep(StdDuration::from_micros(rng.below(2000))); }
             _ => { for _ in 0..rng.below(5000) { std::hint::spin_loop(); } }
         }
     }
@@ -92,13 +95,16 @@ fn run_case(seed: u64) -> Result<String, String> {
     let x = dint(shared.get("x").as_ref()); let y = dint(shared.get("y").as_ref());
     // stop and join (with a limit)
     let mut joined = vec![false; nres];
-    for h in &handles { h.stop(); }
+    let one_by_one = shared_clock.is_some();
+    // on a shared clock the (paused) threads are parked in sleep_until between their polls: they are stopped one at a time
+    if !one_by_one { for h in &handles { h.stop(); } }
     let mut states = vec![0u8; nres];
     for (i, mut h) in handles.into_iter().enumerate() {
+        if one_by_one { h.stop(); }
         let (tx, rx) = channel();
         let c = ctl[i].clone();
         std::thread::spawn(move || { let r = h.join(); let _ = tx.send(r.is_ok()); });
-        joined[i] = rx.recv_timeout(StdDuration::from_secs(30)).unwrap_or(false);
+        joined[i] = rx.recv_timeout(StdDuration::from_secs(if one_by_one { 10 } else { 30 })).unwrap_or(false);
         states[i] = state_num(c.state());
     }
     let x_end = dint(shared.get("x").as_ref());
@@ -127,6 +133,18 @@ fn main() {
     let mut rng = Rng::new(vh::seed_from_env());
     for k in 0..count {
         let seed = rng.next() >> 1;
-        match run_case(seed) { Ok(l) => writeln!(out, "c{k}_{seed} : {l}").unwrap(), Err(e) => writeln!(out, "c{k}_{seed} ERROR {e}").unwrap() }
+        match run_case(seed) {
+            Ok(l) => {
+                writeln!(out, "c{k}_{seed} : {l}").unwrap();
+                // a resource that did not join within the limit leaves a thread behind (and every later case would wait for its
+                // time-outs again): the failing line is on record, stop here
+                let per: Vec<&str> = l.split(':').nth(1).unwrap_or("").split_whitespace().collect();
+                let nw: usize = per.get(4).and_then(|t| t.parse().ok()).unwrap_or(0);
+                let base = 6 + 2 * nw;
+                let stuck = per.len() > base && per[base..].chunks(5).any(|c| c.len() == 5 && c[1] == "0");
+                if stuck { out.flush().unwrap(); std::process::exit(0); }
+            }
+            Err(e) => writeln!(out, "c{k}_{seed} ERROR {e}").unwrap(),
+        }
     }
 }
